@@ -437,3 +437,34 @@ Theorem C14_query_on_reparse :
 Proof. exact query_on_reparse. Qed.
 
 Print Assumptions C14_query_on_reparse.
+
+(** ** histories that contain [Element::normalize] calls (Model/DomNormalize.v; see Properties/C12.v):
+    [normalize] is a history of [append_data] / [remove_child] calls, so the order invariant holds after it *)
+From XmlRs Require Import Model.DomNormalize Proofs.DomNormalizeHist Proofs.DomNormalizeC12 Proofs.DomNormalizeC14.
+
+Theorem C14_good_reachable_with_normalize : forall init nops, WGood init -> WGood (run_n init nops).
+Proof. exact good_reachable_with_normalize. Qed.
+
+Theorem C14_order_inv_reachable_with_normalize :
+  forall init nops k s, WGood init -> doc_at (run_n init nops) k = Some s -> OrderInv s.
+Proof. exact order_inv_reachable_with_normalize. Qed.
+
+Theorem C14_keys_after_any_history_with_normalize :
+  forall init nops k s, WGood init -> doc_at (run_n init nops) k = Some s ->
+    Walk s (sroot s) (preorder s)
+    /\ (forall x, In x (preorder s) <-> attached s x)
+    /\ (forall x, attached s x -> Store.key s x <> 0)
+    /\ (forall l1 x l2 y l3, preorder s = l1 ++ x :: l2 ++ y :: l3 -> Store.key s x < Store.key s y)
+    /\ (forall x, ~ attached s x -> Store.key s x = 0).
+Proof. exact keys_after_any_history_with_normalize. Qed.
+
+(** the example history of [C12_normalize_example]: the Text nodes merged away (8, 9) have key 0 *)
+Example C14_normalize_example :
+  OrderInv (store0 nz_final)
+  /\ map (Store.key (store0 nz_final)) [1; 2; 3; 4; 5; 6; 10; 7; 8; 9] = [1; 2; 3; 4; 5; 6; 7; 8; 0; 0].
+Proof. exact nz_example_keys. Qed.
+
+Print Assumptions C14_good_reachable_with_normalize.
+Print Assumptions C14_order_inv_reachable_with_normalize.
+Print Assumptions C14_keys_after_any_history_with_normalize.
+Print Assumptions C14_normalize_example.
